@@ -33,7 +33,7 @@ MkRS(kf, kg) ==
                        \* a user function that fails (after suspending): the error names the function and carries its message
                        [name |-> S("r7"), expr |-> Call(S("h"), A)],
                        \* a cast that parses text (the multi-threaded recorder supplies many different `s`)
-                       [name |-> S("r8"), expr |-> VecE(<<Un("year", Un("datetime", Ref(S("s")))), Bin("lt", Un("datetime", Ref(S("s"))), Un("datetime", Val(St("2015-07-30T03:26:13Z"))))>>)] >>, 1, NRules),
+                       [name |-> S("r8"), expr |-> VecE(<<Un("year", Un("datetime", Ref(S("s")))), Bin("lt", Un("datetime", Ref(S("s"))), Un("datetime", Val(St("2015-07-30T03:26:13Z"))))>>)] >>, 1, IF NRules < 8 THEN NRules ELSE 8),
    funcs |-> << [name |-> S("f"), cacheable |-> TRUE, suspend |-> kf, script |-> Echo],
                 [name |-> S("g"), cacheable |-> FALSE, suspend |-> kg, script |-> Echo],
                 [name |-> S("h"), cacheable |-> FALSE, suspend |-> kg, script |-> <<[r |-> "fail", msg |-> S("h failed")]>>] >>,
@@ -43,8 +43,14 @@ MkRS(kf, kg) ==
 \* an evaluation abandoned inside f(2) is followed by a fresh evaluation that calls f(2) first.
 InputOf(id) == VMap(<< <<S("a"), I(IF Shape = "single" THEN (IF id = 1 THEN 1 ELSE 2) ELSE IF cfg.same THEN 1 ELSE id)>> >>)
 
+\* Shape = "many": NRules rules (every seventh calls the cacheable f, the others are arithmetic on the input)
+RECURSIVE DecS(_)
+DecS(n) == IF n < 10 THEN <<48 + n>> ELSE DecS(n \div 10) \o <<48 + (n % 10)>>
+ManyRS(kf, kg) == LET full == MkRS(kf, kg) IN
+  [full EXCEPT !.rules = [k \in 1..NRules |-> [name |-> <<114>> \o DecS(k),
+                                                 expr |-> IF k % 7 = 0 THEN Call(S("f"), Bin("add", A, Val(I(k \div 7)))) ELSE Bin("add", A, Val(I(k)))]]]
 SingleRS(kf, kg) == LET full == MkRS(kf, kg) IN [full EXCEPT !.rules = <<full.rules[2]>>]
-TheRS == IF Shape = "single" THEN SingleRS(cfg.kf, cfg.kg) ELSE MkRS(cfg.kf, cfg.kg)
+TheRS == IF Shape = "single" THEN SingleRS(cfg.kf, cfg.kg) ELSE IF Shape = "many" THEN ManyRS(cfg.kf, cfg.kg) ELSE MkRS(cfg.kf, cfg.kg)
 \* K > 5 is the scale configuration: a user function that suspends K times (an evaluation polled hundreds of times)
 Ks == IF K <= 5 THEN 0..K ELSE {0, K}
 Init == /\ cfg \in [kf : Ks, kg : Ks, same : BOOLEAN]
